@@ -115,6 +115,22 @@ pub fn rewrites(base: &Program, tier: Tier) -> Vec<Rewrite> {
             }
         }
     }
+    // R3r: a two-sided range test, upper bound first, written out vs behind a user function that uses its
+    // parameter twice (both forms are derived from a base filter `c > k`; the written-out form is the reference)
+    for (si, s) in m.steps.iter().enumerate() {
+        let Step::Filter(E::Bin(Op::Gt, l, r)) = s else { continue };
+        let (E::Col(c), E::Int(k)) = (&**l, &**r) else { continue };
+        let range = |x: E| E::bin(Op::And, E::bin(Op::Lte, x.clone(), E::Int(k + 2)), E::bin(Op::Gte, x, E::Int(*k)));
+        let mut a = base.clone();
+        a.main.as_mut().unwrap().steps[si] = Step::Filter(range(E::Col(*c)));
+        for (kind, style) in [("R3r-range-fn-positional", CallStyle::Plain), ("R3r-range-fn-piped", CallStyle::Piped)] {
+            let mut b = base.clone();
+            let fidx = b.funcs.len();
+            b.funcs.push(UserFn { name: "rwf".into(), params: vec!["pp".into()], named: vec![], style, body: range(E::Col(0)) });
+            b.main.as_mut().unwrap().steps[si] = Step::Filter(E::Call(fidx, vec![E::Col(*c)]));
+            out.push(Rewrite { kind, site: si, prog: b, against: Some(a.clone()) });
+        }
+    }
     // R3w: a window / aggregation function applied to a column -> a user function whose body is that application
     {
         fn replace_win(e: &mut E, fidx: usize) -> Option<WinFn> {
@@ -308,7 +324,7 @@ pub fn run(tier: Tier) -> i32 {
     }
     run.states = progs.len() as u64 + cases.len() as u64;
     run.transitions = st.points + cases.len() as u64;
-    run.set("bounds", json!({"base_configs": cfgs.iter().map(|c| format!("{c:?}")).collect::<Vec<_>>(), "rewrites": ["R1 let prefix","R2 into prefix","R6 module path","R3 user function (positional / named default omitted / named default given / piped / parameter named like a column)","R3w window function behind a user function (on the C04 window programs)","R4 conjunctive vs consecutive filters","R5 identities (filter true, select frame, derive-then-drop, repeat sort)"], "sites": "every applicable site", "instances": pool.len()}));
+    run.set("bounds", json!({"base_configs": cfgs.iter().map(|c| format!("{c:?}")).collect::<Vec<_>>(), "rewrites": ["R1 let prefix","R2 into prefix","R6 module path","R3 user function (positional / named default omitted / named default given / piped / parameter named like a column)","R3w window function behind a user function (on the C04 window programs)","R3r two-sided range test behind a user function that uses its parameter twice","R4 conjunctive vs consecutive filters","R5 identities (filter true, select frame, derive-then-drop, repeat sort)"], "sites": "every applicable site", "instances": pool.len()}));
     run.set("rule", json!("state = base program or (base, site, rewrite); every rewritten program is compiled, executed and compared with the reference of the base program (the model proves base ≡ rewritten first); base programs on which the implementation already disagrees with the model are left to C01"));
     run.assume("differential over the reference model: base programs that already disagree with the model (C01 findings) are skipped here");
     run.finish()
